@@ -318,6 +318,37 @@ def search(rep: C.Report, tier: str, broken):
         # _potential(default=True) switched the shared defaultIntegrals to CONSTANT extrapolation: restore
         for f in (DI.Jb, DI.Jf):
             f.setExtrapolationType(extrapolationTypeLower=EExtrapolationType.NONE, extrapolationTypeUpper=EExtrapolationType.NONE)
+    # history independence of the "no interpolation" path: a plain Integrals() / EffectivePotentialNoResum() evaluates the defining integrals,
+    # so the value at a given (m, T) must not depend on how many other arguments the same object has been asked for before
+    for label, mk in (("Integrals()", lambda: _potential(integrals=Integrals())), ("EffectivePotentialNoResum() without integrals", lambda: _potential())):
+        try:
+            ph = mk()
+        except Exception as ex:  # noqa: BLE001
+            rep.count("history potential construction raised " + type(ex).__name__)
+            continue
+        Th = 1.3
+        em = (np.zeros(0), np.zeros(0), 0, 0)
+        probes = [0.11, 0.7, 1.9, 4.3, 33.0]
+
+        def vals():
+            return [float(ph.potentialOneLoopThermal((np.array([x * Th * Th]), np.array([2.0]), 0, 0), (np.array([1.3 * x * Th * Th]), np.array([4.0]), 0, 0), Th))
+                    for x in probes]
+        before = vals()
+        nscan = 560 if quick else 1500
+        for j in range(nscan):                      # a scan over a wide range of masses, one argument per call as a minimiser would do
+            xs_ = 2500.0 * (j + 0.5) / nscan
+            ph.potentialOneLoopThermal((np.array([xs_ * Th * Th]), np.array([1.0]), 0, 0), (np.array([0.9 * xs_ * Th * Th]), np.array([1.0]), 0, 0), Th)
+        after = vals()
+        want = [Th ** 4 / (2 * math.pi ** 2) * (2.0 * R.ref_J(x, True) + 4.0 * R.ref_J(1.3 * x, False)) for x in probes]
+        rep.case(key=("history", label))
+        rep.count("history-independence scans")
+        dh = max(abs(a - b) / abs(b) for a, b in zip(after, before))
+        dr = max(abs(a - w) / abs(w) for a, w in zip(after, want))
+        if dh > 1e-9 or dr > 1e-5:
+            rep.violation("the thermal potential at fixed masses and temperature changes after the same object has been evaluated at many other arguments",
+                          {"object": label, "T": Th, "msq_over_T2": probes, "before": before, "after": after, "defining_integrals": want,
+                           "other_evaluations_in_between": nscan, "rel_change": dh, "rel_diff_from_defining_integrals": dr},
+                          finding_key="C20:history")
     # ERROR option refuses negative mass squared instead of silently dropping the imaginary part
     pe = _potential(integrals=Integrals(), option=EImaginaryOption.ERROR)
     try:
